@@ -37,6 +37,12 @@ def oracle(ctx, cfg, rr):
             if rec['op'] == 'm' and rec['mem']['total'] != rec['actual_total']:
                 return ctx.fail(f'rank {r}: memory_usage() total {rec["mem"]["total"]} != {rec["actual_total"]} bytes held',
                                 case, 'memory')
+    # nothing K-FAC keeps alive hides from memory_usage(): module-level state of the kfac package (caches, memo tables) holds
+    # no tensors
+    hidden = module_level_tensor_bytes()
+    if hidden and any(rec['op'] == 'm' for rec in rr.res[0]['ops']):
+        return ctx.fail(f'module-level state of the kfac package keeps {hidden} bytes of tensors alive that memory_usage() does not report',
+                        case, 'memory-hidden')
     # traffic
     a0 = rr.res[0]['assign']
     workers = [sorted(r for r in range(W) if rr.res[r]['assign']['gw'][l]) for l in range(len(dims))]
@@ -45,6 +51,13 @@ def oracle(ctx, cfg, rr):
     for a, g in dims:
         for n in (a, g):
             fac_elems.add(n * (n + 1) // 2 if cfg.sym else n * n)
+    fac_list = []
+    for a, g in dims:
+        for n_ in (a, g):
+            fac_list.append(n_ * (n_ + 1) // 2 if cfg.sym else n_ * n_)
+    bucket_sums = {0}
+    for c_ in fac_list:
+        bucket_sums |= {x + c_ for x in bucket_sums}
     for r in range(W):
         for e in rr.res[r]['trace']:
             if e[0] != 'issue':
@@ -61,6 +74,11 @@ def oracle(ctx, cfg, rr):
                 if cfg.cap_mb == 0 and n not in fac_elems:
                     return ctx.fail(f'factor all-reduce of {n} elements; expected one of {sorted(fac_elems)} '
                                     f'({"n(n+1)/2" if cfg.sym else "n*n"})', case, 'factor-elems')
+                if cfg.cap_mb > 0 and n not in bucket_sums:
+                    # a bucket carries whole factors, each packed as the symmetry setting says: its element count is the
+                    # sum of a sub-multiset of the per-factor counts
+                    return ctx.fail(f'bucketed factor all-reduce of {n} elements is not a sum of per-factor counts {sorted(fac_list)} '
+                                    f'({"n(n+1)/2" if cfg.sym else "n*n"} each)', case, 'bucket-elems')
             elif kind == 'broadcast':
                 m = tuple(members)
                 is_worker_group = any(m == tuple(wg) for wg in workers)
@@ -89,6 +107,38 @@ def oracle(ctx, cfg, rr):
             got = sum(1 for e in rr.res[0]['trace'] if e[0] == 'issue' and e[2] == 'all_reduce')
             if got != want:
                 return ctx.fail(f'{got} factor all-reduces for {upd} factor-update steps × {2 * len(dims)} factors', case, 'factor-once')
+
+
+def module_level_tensor_bytes():
+    """bytes of torch tensors reachable (through containers, caches and memoising wrappers, a few levels deep) from the
+    global namespaces of the kfac modules"""
+    import gc
+    import sys
+    import types
+    import torch
+    seen, total = set(), 0
+    skip = (types.ModuleType, type, types.FunctionType, types.BuiltinFunctionType, types.MethodType, str, bytes, int, float, bool, type(None))
+    frontier = []
+    for name, mod in list(sys.modules.items()):
+        if mod is None or not (name == 'kfac' or name.startswith('kfac.')):
+            continue
+        for v in list(vars(mod).values()):
+            if isinstance(v, torch.Tensor) or not isinstance(v, skip):
+                frontier.append((v, 0))
+    while frontier:
+        o, d = frontier.pop()
+        if id(o) in seen:
+            continue
+        seen.add(id(o))
+        if isinstance(o, torch.Tensor):
+            total += o.nelement() * o.element_size()
+            continue
+        if d >= 4 or isinstance(o, skip):
+            continue
+        if isinstance(o, (dict, list, tuple, set, frozenset)) or type(o).__name__ in ('_lru_cache_wrapper', 'partial', 'OrderedDict', 'defaultdict', 'deque'):
+            for x in gc.get_referents(o):
+                frontier.append((x, d + 1))
+    return total
 
 
 def gen_cfgs(ctx, n):
